@@ -225,6 +225,8 @@ def case_of(r):
     """worker-side hook for hv.batch: (term, expected) or an error string"""
     if r["error"]:
         return {"skip": "implementation raised " + r["error"]["type"]}
+    if r["spec"]["objective"]["kind"] == "nanhole":
+        return {"skip": "NaN-valued objective: pyhms settles NaN-vs-NaN comparisons by random.choice, outside the machine's LevelLimit model"}
     try:
         term, expected, meta = trace_to_case(r)
         return {"term": term, "expected": expected, "n": meta["events"]}
